@@ -1,38 +1,155 @@
 package common
 
 import (
+	"bytes"
 	"encoding/json"
 	"fmt"
+	"io"
+	"strings"
 
 	r "github.com/DemoHn/Zn/pkg/runtime"
 	"github.com/DemoHn/Zn/pkg/value"
 )
 
 func HashMapToJSONString(hm *value.HashMap) (*value.String, error) {
-	data, err := json.Marshal(buildPlainValueFromElement(hm))
-	if err != nil {
-		return nil, value.ThrowException("生成JSON失败 - " + err.Error())
-	}
-	return value.NewString(string(data)), nil
+	return ElementToJSONString(hm)
 }
 
 func JSONStringToElement(jsonStr *value.String) (r.Element, error) {
-	plainMap := map[string]any{}
-	vdata := []byte(jsonStr.GetValue())
-	if err := json.Unmarshal(vdata, &plainMap); err != nil {
+	dec := json.NewDecoder(strings.NewReader(jsonStr.GetValue()))
+	// the document must be an object
+	tok, err := dec.Token()
+	if err != nil {
 		return nil, value.ThrowException("解析JSON失败 - " + err.Error())
 	}
+	if delim, ok := tok.(json.Delim); !ok || delim != '{' {
+		return nil, value.ThrowException("解析JSON失败 - JSON文本须为一个对象")
+	}
+	elem, err := decodeJSONObject(dec)
+	if err != nil {
+		return nil, value.ThrowException("解析JSON失败 - " + err.Error())
+	}
+	// no more data is allowed after the object
+	if _, err := dec.Token(); err != io.EOF {
+		return nil, value.ThrowException("解析JSON失败 - 对象之后存在多余内容")
+	}
+	return elem, nil
+}
 
-	return buildElementFromPlainValue(plainMap), nil
+// decodeJSONObject - decode the members of an object (after '{' has been read),
+// keeping the keys in document order
+func decodeJSONObject(dec *json.Decoder) (r.Element, error) {
+	target := value.NewEmptyHashMap()
+	for dec.More() {
+		keyTok, err := dec.Token()
+		if err != nil {
+			return nil, err
+		}
+		key, ok := keyTok.(string)
+		if !ok {
+			return nil, fmt.Errorf("invalid object key")
+		}
+		item, err := decodeJSONValue(dec)
+		if err != nil {
+			return nil, err
+		}
+		target.AppendKVPair(value.KVPair{Key: key, Value: item})
+	}
+	// read '}'
+	if _, err := dec.Token(); err != nil {
+		return nil, err
+	}
+	return target, nil
+}
+
+func decodeJSONValue(dec *json.Decoder) (r.Element, error) {
+	tok, err := dec.Token()
+	if err != nil {
+		return nil, err
+	}
+	switch v := tok.(type) {
+	case json.Delim:
+		switch v {
+		case '{':
+			return decodeJSONObject(dec)
+		case '[':
+			varr := value.NewEmptyArray()
+			for dec.More() {
+				item, err := decodeJSONValue(dec)
+				if err != nil {
+					return nil, err
+				}
+				varr.AppendValue(item)
+			}
+			// read ']'
+			if _, err := dec.Token(); err != nil {
+				return nil, err
+			}
+			return varr, nil
+		}
+		return nil, fmt.Errorf("unexpected delimiter %v", v)
+	case float64:
+		return value.NewNumber(v), nil
+	case string:
+		return value.NewString(v), nil
+	case bool:
+		return value.NewBool(v), nil
+	case nil:
+		return value.NewNull(), nil
+	}
+	return nil, fmt.Errorf("unexpected token %v", tok)
 }
 
 func ElementToJSONString(elem r.Element) (*value.String, error) {
-	plainValue := buildPlainValueFromElement(elem)
-	jsonStr, err := json.Marshal(plainValue)
-	if err != nil {
+	var buf bytes.Buffer
+	if err := writeJSONValue(&buf, elem); err != nil {
 		return nil, value.ThrowException("生成JSON失败 - " + err.Error())
 	}
-	return value.NewString(string(jsonStr)), nil
+	return value.NewString(buf.String()), nil
+}
+
+// writeJSONValue - encode an element; object members follow the key order of the HashMap
+func writeJSONValue(buf *bytes.Buffer, elem r.Element) error {
+	switch vv := elem.(type) {
+	case *value.Array:
+		buf.WriteByte('[')
+		for idx, vi := range vv.GetValue() {
+			if idx > 0 {
+				buf.WriteByte(',')
+			}
+			if err := writeJSONValue(buf, vi); err != nil {
+				return err
+			}
+		}
+		buf.WriteByte(']')
+		return nil
+	case *value.HashMap:
+		buf.WriteByte('{')
+		items := vv.GetValue()
+		for idx, key := range vv.GetKeyOrder() {
+			if idx > 0 {
+				buf.WriteByte(',')
+			}
+			keyData, err := json.Marshal(key)
+			if err != nil {
+				return err
+			}
+			buf.Write(keyData)
+			buf.WriteByte(':')
+			if err := writeJSONValue(buf, items[key]); err != nil {
+				return err
+			}
+		}
+		buf.WriteByte('}')
+		return nil
+	default:
+		data, err := json.Marshal(buildPlainValueFromElement(elem))
+		if err != nil {
+			return err
+		}
+		buf.Write(data)
+		return nil
+	}
 }
 
 func buildPlainValueFromElement(elem r.Element) any {
